@@ -1049,6 +1049,77 @@ def aliases(ctx, pool, stats):
     stats["alias_outcomes"] = {"%s:%s" % k: v for k, v in sorted(outcome.items())}
 
 
+# ----------------------------------------------------------------------------- the last assignment wins, for every value
+def last_wins(ctx, pool, stats):
+    """every documented key assigned twice - in one block, and in two blocks of the same name - with (first, last) in
+    {(x,0), (0,x), (x,-0.0), (x,default), (default,x), (x,1e-300), (x,x)}; x = genuine value, default = README default where one
+    is documented (GM2CalcConfig).  Program result and reader dump must equal those of the file that carries only the LAST
+    value (if that file is rejected, the double assignment must be rejected identically)."""
+    bases = [("slha", "input/example.slha", None), ("gm2calc", "input/example.gm2", None), ("thdm", "input/example.thdm", None),
+             ("thdm", "test/test_points/thdm_gauge-basis.in", "MINPAR")]
+    tasks, meta = [], []
+    for fmt, rel, only in bases:
+        text = _nl(open(os.path.join(REPO, rel)).read())
+        f = M.parse(text)
+        L = text.split("\n")[:-1]
+        ofmt = out_format(fmt, M.content(text, fmt))
+        eff = {}
+        for a in M.assignments(None, fmt, f):
+            eff[(a[2], a[3])] = a
+        texts, tm = [], []
+        for (blk, key), (bi, li, _, _, x, ti) in sorted(eff.items()):
+            if not ((fmt, blk, key) in M.DOC or (fmt, blk, key) in M.DOC_EX) or (only and blk != only):
+                continue
+            if ctx.quick and len(key) == 2 and fmt == "thdm" and key not in ((1, 1), (2, 3), (3, 3)):
+                continue
+            pairs = [(x, "0"), ("0", x), (x, "-0.0"), (x, "1e-300"), (x, x)]
+            if blk == "GM2CALCCONFIG":
+                dv = "%d" % M.config_default(fmt, key[0])
+                pairs += [(x, dv), (dv, x)]
+            ks = " ".join("%d" % k for k in key)
+            ln = lambda v: "  %s   %s" % (ks, v)
+            hdr = _hdr_copy(f.lines[f.blocks[bi].hdr])
+            h = f.blocks[bi].hdr
+            single = {}
+            for first, last in pairs:
+                if blk == "MINPAR" and key == (24,) and first == "0":
+                    continue      # 0 is not an allowed Yukawa type: an invalid value may be rejected wherever it stands
+                if last not in single:
+                    single[last] = len(texts)
+                    texts.append("\n".join(L[:li] + [ln(last)] + L[li + 1:]) + "\n")
+                    tm.append(None)
+                texts.append("\n".join(L[:li] + [ln(first), ln(last)] + L[li + 1:]) + "\n")
+                tm.append(("%s[%s]" % (blk, ",".join(map(str, key))), "same block", first, last, x, single[last]))
+                texts.append("\n".join(L[:h] + [hdr, ln(first)] + L[h:li] + [ln(last)] + L[li + 1:]) + "\n")
+                tm.append(("%s[%s]" % (blk, ",".join(map(str, key))), "two blocks", first, last, x, single[last]))
+        base_i = len(meta)
+        for i in range(0, len(texts), 40):
+            tasks.append((fmt, ofmt, texts[i:i + 40]))
+        meta += [(fmt, rel, base_i, m, t) for m, t in zip(tm, texts)]
+    flat = []
+    for r in pool.imap(_w_eval, tasks, chunksize=1):
+        flat += r
+    n = 0
+    for (fmt, rel, base_i, m, txt), r in zip(meta, flat):
+        if m is None:
+            continue
+        what, lay, first, last, x, si = m
+        n += 1
+        ctx.evals(1)
+        ref = flat[base_i + si]
+        cls = "(%s,%s)" % ("x" if first == x else first, "x" if last == x else last)
+        ctx.nontrivial(("lastwins", fmt, what.split("[")[0], lay, cls, r[0]))
+        if (r[0], r[1], r[3]) != (ref[0], ref[1], ref[3]):
+            det = ("exit %r stdout %s, file with only the last value: exit %r stdout %s" % (r[0], _short(r[1]), ref[0], _short(ref[1]))
+                   if (r[0], r[1]) != (ref[0], ref[1]) else "reader: " + _dump_diff(ref[3], r[3]))
+            ctx.fail("lastwins:%s:%s:%s" % (fmt, what, cls),
+                     "%s input (%s): %s assigned twice (%s), first %s then %s, does not behave like the single assignment %s: %s"
+                     % (fmt, rel, what, lay, first, last, last, det),
+                     {"kind": "rewrite", "base": "%s %s twice %s" % (rel, what, cls), "fmt": fmt,
+                      "original": meta[base_i + si][4], "rewritten": txt})
+    stats["lastwins_cases"] = n
+
+
 # ----------------------------------------------------------------------------- deletions / defaults
 def default_dump(fmt):
     p = subprocess.run([_W["mirror"]], input=b"D %s 0\n" % fmt.encode(), stdout=subprocess.PIPE, stderr=subprocess.PIPE)
@@ -1291,6 +1362,7 @@ def run(ctx):
         for k, what, data in dfails:
             ctx.fail(k, what, data)
         aliases(ctx, pool, stats)
+        last_wins(ctx, pool, stats)
         scale_family(ctx, pool, stats)
         isolated = isolation(ctx, pool, bases, stats)
         if not isolated:
@@ -1326,7 +1398,7 @@ def run(ctx):
     ctx.note("candidates_dropped_because_model_says_content_changes", stats["dropped_by_model"])
     ctx.note("new_states_per_operator", dict(sorted(stats["per_op"].items())))
     ctx.note("states_merged_same_text", stats["merged"])
-    for k in ("deletion_cases", "blocks_without_documented_default", "keys_without_any_default", "alias_cases", "alias_outcomes"):
+    for k in ("deletion_cases", "blocks_without_documented_default", "keys_without_any_default", "alias_cases", "alias_outcomes", "lastwins_cases"):
         ctx.note(k, stats.get(k, 0))
     for k in ("scale_cases", "keys_perturbed", "bad_token_cases", "config_cases", "isolation_sequences",
               "isolation_files_compared", "isolation_rewritten_states"):
@@ -1353,6 +1425,8 @@ def run(ctx):
         "a base read in a process of its own; plus file sequences in ONE process (scale family A,B / A,B,A / multi-scale, the "
         "three formats in all orders, test points alternating, rewritten states between foreign files) with a fresh and with "
         "one re-used GM2_slha_io, each dump compared bitwise with a one-file process; "
+        "last assignment wins for every value: each documented key assigned twice (one block / two blocks) with (first,last) in "
+        "{(x,0),(0,x),(x,-0.0),(x,default),(default,x),(x,1e-300),(x,x)} compared with the file carrying only the last value; "
         "key aliasing: for every documented key (both indices of matrix entries) an extra line with key token k+2^32, k+-2^31, "
         "k-2^32, k+2^63, k+2^64, k+2^16, k+256, -k, k+NUL (must be rejected or ignored) and k.0, k., ke0 (may also act as k) before / "
         "after / instead of the genuine line, scale-dependent blocks at Q+2^32, Q+2^31, Q+2^64, -Q; R7 also respells keys as +k, 00k; "
